@@ -33,6 +33,9 @@ func initEncAndDecModes() {
 		MaxArrayElements: 10485760, // Set to a reasonably high value, 10MiB
 		// The encoder puts no limit on map sizes either: anything that was stored must stay readable
 		MaxMapPairs: 10485760,
+		// Go strings are encoded without UTF-8 validation; decode them back the same way instead of
+		// failing on a record that was written successfully
+		UTF8: cbor.UTF8DecodeInvalid,
 	}.DecModeWithTags(ts)
 	if err != nil {
 		panic(err)
